@@ -216,6 +216,18 @@ macro_rules! dispatch_impl {
                         fuse::<T, I, $V>(style, d(2), false, x);
                         2 3 A2 C3 NA2 NC3, 3 2 A3 C2 NA3 NC2, 2 2 A2 C2 NA2 NC2)
                 }
+                "eqv" => match (fam, d(0)) {
+                    ("arr", 1) => eqv::<[$V; 1], $V>(x), ("arr", 2) => eqv::<[$V; 2], $V>(x),
+                    ("arr", 3) => eqv::<[$V; 3], $V>(x), ("arr", 4) => eqv::<[$V; 4], $V>(x),
+                    ("marr", 1) => eqv::<MArr1<$V, 1>, $V>(x), ("marr", 2) => eqv::<MArr1<$V, 2>, $V>(x),
+                    ("marr", 3) => eqv::<MArr1<$V, 3>, $V>(x), ("marr", 4) => eqv::<MArr1<$V, 4>, $V>(x),
+                    ("marrd", 1) => eqv::<MArrD1<A1, $V>, $V>(x), ("marrd", 2) => eqv::<MArrD1<A2, $V>, $V>(x),
+                    ("marrd", 3) => eqv::<MArrD1<A3, $V>, $V>(x), ("marrd", 4) => eqv::<MArrD1<A4, $V>, $V>(x),
+                    ("marr2", 4) => eqv::<MArr2<$V, 2, 2>, $V>(x), ("marr2", 6) => eqv::<MArr2<$V, 2, 3>, $V>(x),
+                    ("marrd2", 4) => eqv::<MArrD2<A2, C2, $V>, $V>(x), ("marrd2", 6) => eqv::<MArrD2<A2, C3, $V>, $V>(x),
+                    ("marrd3", 8) => eqv::<MArrD3<A2, B2, C2, $V>, $V>(x),
+                    _ => Out::Bad(format!("no eqv for family {} size {}", fam, d(0))),
+                },
                 "disc" => {
                     // no Discount for plain arrays (no FromIterator)
                     match (fam, d(0)) {
